@@ -368,4 +368,111 @@ theorem isMatch_sound {re : Re} {s : Bytes} (h : isMatch re s = true) :
   obtain ⟨p, q, hr, hp, hq, _, _, hM⟩ := find_sound h
   exact ⟨p, q, hr, hp, hq, hM⟩
 
+/-! ## findAll spans and replaceAll -/
+
+theorem Pos.advance_total : ∀ (n : Nat) (p : Pos),
+    (p.advance n).off + (p.advance n).after.length = p.off + p.after.length := by
+  intro n
+  induction n with
+  | zero => intro p; rfl
+  | succ n ih =>
+    intro p
+    obtain ⟨b, a, o⟩ := p
+    cases a with
+    | nil => rfl
+    | cons x t =>
+      simp only [Pos.advance]
+      rw [ih]
+      simp only [List.length_cons]; omega
+
+theorem SpansIn.mono {B : Nat} {cur cur' : Nat} {ms : List (Nat × Nat × Caps)} (h : cur' ≤ cur)
+    (hs : SpansIn B cur ms) : SpansIn B cur' ms := by
+  cases ms with
+  | nil => trivial
+  | cons x t =>
+    obtain ⟨a, e, c⟩ := x
+    obtain ⟨h1, h2, h3, h4⟩ := hs
+    exact ⟨by omega, h2, h3, h4⟩
+
+theorem searchFrom_span {re : Re} {fuel n : Nat} {p : Pos} {a : Nat} {e : Pos} {c : Caps}
+    (h : searchFrom re fuel n p = some (a, e, c)) :
+    p.off ≤ a ∧ a ≤ e.off ∧ e.off + e.after.length = p.off + p.after.length := by
+  obtain ⟨p', hr, ha, hm⟩ := searchFrom_sound _ _ h
+  have hM := matchAt_sound hm
+  subst ha
+  refine ⟨hr.off_le, hM.off_le, ?_⟩
+  obtain ⟨n1, _, rfl⟩ := hr.advance
+  obtain ⟨n2, _, rfl⟩ := hM.advance
+  rw [Pos.advance_total, Pos.advance_total]
+
+theorem findAllAux_spans {re : Re} {fuel B : Nat} : ∀ (n : Nat) (p : Pos) (prev : Option Nat),
+    p.off + p.after.length = B → SpansIn B p.off (findAllAux re fuel n p prev) := by
+  intro n
+  induction n with
+  | zero => intro p prev _; simp [findAllAux, SpansIn]
+  | succ n ih =>
+    intro p prev hB
+    simp only [findAllAux]
+    split
+    · trivial
+    · rename_i a e c hs
+      obtain ⟨h1, h2, h3⟩ := searchFrom_span hs
+      have heB : e.off ≤ B := by omega
+      split
+      · -- empty match
+        have hrest : SpansIn B e.off (match (match decodeRune e.after with
+              | none => none
+              | some (_, w) => some (e.advance w)) with
+            | none => []
+            | some np => findAllAux re fuel n np (some e.off)) := by
+          split
+          · trivial
+          · rename_i np hnp
+            split at hnp
+            · cases hnp
+            · rename_i r w hd
+              cases hnp
+              have hw := (decodeRune_width hd).2
+              have := ih (e.advance w) (some e.off) (by rw [Pos.advance_total]; omega)
+              exact this.mono (by rw [Pos.advance_off _ _ hw]; omega)
+        split
+        · exact hrest.mono (by omega)
+        · exact ⟨h1, h2, heB, hrest⟩
+      · exact ⟨h1, h2, heB, ih e (some e.off) (by omega)⟩
+
+/-- The spans `findAll` reports are in order, non-overlapping and inside the subject. -/
+theorem findAll_spans (re : Re) (s : Bytes) : SpansIn s.length 0 (findAll re s) := by
+  unfold findAll
+  exact findAllAux_spans _ (Pos.start s) none (by simp [Pos.start])
+
+theorem replaceAll_go_sublist (s : Bytes) {B : Nat} : ∀ (ms : List (Nat × Nat × Caps)) (cur : Nat),
+    SpansIn B cur ms → (replaceAll.go s [] ms cur).Sublist (s.drop cur) := by
+  intro ms
+  induction ms with
+  | nil => intro cur _; simp [replaceAll.go]
+  | cons x t ih =>
+    intro cur h
+    obtain ⟨a, e, c⟩ := x
+    obtain ⟨h1, h2, _, h4⟩ := h
+    simp only [replaceAll.go, List.append_nil]
+    have hsplit : s.drop cur = (s.drop cur).take (a - cur) ++ s.drop a := by
+      have := (List.take_append_drop (a - cur) (s.drop cur)).symm
+      rw [List.drop_drop] at this
+      have h' : cur + (a - cur) = a := by omega
+      rw [h'] at this
+      exact this
+    have htail : (s.drop e).Sublist (s.drop a) := by
+      have : s.drop e = (s.drop a).drop (e - a) := by
+        rw [List.drop_drop]; congr 1; omega
+      rw [this]; exact List.drop_sublist _ _
+    have := List.Sublist.append (List.Sublist.refl ((s.drop cur).take (a - cur)))
+      ((ih e h4).trans htail)
+    rw [← hsplit] at this
+    exact this
+
+/-- Deleting all matches only removes bytes. -/
+theorem replaceAll_nil_sublist (re : Re) (s : Bytes) : (replaceAll re s []).Sublist s := by
+  unfold replaceAll
+  simpa using replaceAll_go_sublist s _ 0 (findAll_spans re s)
+
 end Scrapli.Rx
